@@ -73,6 +73,7 @@ PREFIX = {
 SHRINKER = {
     'li7': ['li x6 7'], 'call1': ['call L1'], 'tail1': ['tail L1'], 'fc': [FC], 'mv': ['mv x8 x9'],
     'al4': ['align 4'], 'ret': ['ret'], 'f4': [F4], 'brc1': ['bnez x8 L1'],
+    'csub': ['sub x8 x8 x9'], 'cslli': ['slli x9 x9 2'], 'cadd': ['add x8 x8 x9'], 'ebreak': ['ebreak'],
 }
 
 
@@ -98,6 +99,8 @@ ITEMS = {
     'string': ['string ab'], 'string_u': ['string \u00e9\u00e9'], 'string_esc': ['string a\\nbc'],
     'packh': ['pack <h 1'], 'packQ': ['pack >Q 1'], 'gap': [G(1)], 'mv': ['mv x8 x9'], 'ret': ['ret'],
     'hi': ['lui x5 %hi(L9)'], 'const': ['K9 = 3'], 'label': ['L8:'],
+    'longs_neg': ['longs -1 2'], 'bytes_neg': ['bytes -1 -128'], 'shorts_neg': ['shorts -2'], 'ints_neg': ['ints -3'],
+    'longlongs_neg': ['longlongs -4'], 'csub': ['sub x8 x8 x9'], 'cand': ['and x8 x8 x9'], 'cslli': ['slli x9 x9 2'],
 }
 
 
@@ -120,6 +123,9 @@ CURATED += [
     ('string_escape_align', ['string a\\nb\\t\\x41', 'L0:', 'align 4', 'L1:', 'dw L1', 'dw L0']),
     ('offset_after_padded_align', ['dh 1', 'align 4', 'L1:', FC, 'addi x5 x5 %offset(L1)', 'dw %offset(L1)', 'db 1', 'align 8', 'pack <i %offset(L1)', 'j L1']),
     ('offset_after_gap_align', [G(0), 'align 16', 'L1:', F4, 'dw %offset(L1)', 'lw x5 x6 %offset(L1)', 'beq x8 x0 L1']),
+    ('far_call_then_bwd_br', ['call L9', 'L1:', G(0), 'bnez x8 L1', 'j L1', G(1), 'L9:', F4]),
+    ('far_tail_then_bwd_j', ['mv x8 x9', 'tail L9', 'L1:', FC, G(0), 'j L1', 'beq x9 x0 L1', G(1), 'L9:', F4]),
+    ('labelref_then_regonly', ['L0:', 'bne x8 x9 L0', 'sub x8 x8 x9', 'lui x5 %hi(L0)', 'and x8 x8 x9', 'lw x12 x0 %lo(L0)', 'slli x9 x9 2', 'dw L0', 'add x8 x8 x9', 'j L0', 'ebreak']),
     ('position_wide', ['dd %position(L1, WIDE)', 'pack <q %position(L1, WIDE)', 'li x7 %position(L1, WIDE)', G(0), 'L1:', F4, 'pack >q %position(L1, WIDE)']),
     ('aligns_decreasing', ['dh 1', 'align 4', 'align 3', 'L1:', 'db 1', 'align 8', 'align 6', 'L2:', 'dw L1', 'align 6', 'align 4', 'L3:', 'dw L2', 'dw L3']),
     ('label_between_aligns', ['dh 1', 'align 4', 'L1:', 'align 8', 'L2:', 'dw L1', 'dw L2']),
